@@ -1,9 +1,12 @@
 #!/bin/sh
-# builds /verif/bin/modelrun from the extracted model (coq/extract/model.ml) and the driver
+# builds /verif/bin/modelrun from the extracted model (coq/extract/model.ml) and the driver; the binary is replaced
+# atomically (rename), so a check that is executing the previous binary at that moment is not disturbed
 set -e
 cd "$(dirname "$0")"
 mkdir -p ../build/ocaml ../bin
 cp ../coq/extract/model.ml ../coq/extract/model.mli engines.ml driver.ml ../build/ocaml/
 cd ../build/ocaml
-ocamlfind ocamlopt -w -a -O2 model.mli model.ml engines.ml driver.ml -o ../../bin/modelrun 2>/dev/null || \
-ocamlfind ocamlopt -w -a model.mli model.ml engines.ml driver.ml -o ../../bin/modelrun
+T=../../bin/modelrun.tmp.$$
+ocamlfind ocamlopt -w -a -O2 model.mli model.ml engines.ml driver.ml -o $T 2>/dev/null || \
+ocamlfind ocamlopt -w -a model.mli model.ml engines.ml driver.ml -o $T
+mv -f $T ../../bin/modelrun
